@@ -50,6 +50,11 @@
    p.size               the atomic counter evidenceSize (what Size() reports)
    p.buffer             consensusBuffer (pair ids, in order, repeats possible); a pair id stands for
                         (vote type, height, round, validator, {blockA, blockB})
+   p.upd                an Update that has flushed the buffer, installed the new state and is in the
+                        middle of markEvidenceAsCommitted: [on, to, ids, k, locked, rm] -- stopped right
+                        before the k-th committed-marker write; locked: pendingMtx is held there (the
+                        pending key of ids[k] is deleted and its marker is written in ONE critical
+                        section); rm: keys it deleted from pending so far (clist cleaned at the end)
    p.reported           ghost: the SET of pairs consensus reported since the last Update / start
                         (what must become pending evidence, whatever the buffer did with it)
    p.height             pool.state.LastBlockHeight      (LastBlockTime = c.time[p.height])
@@ -72,6 +77,8 @@ CONSTANTS
   Weak_PendingSkipsExpiry, \* CheckEvidence trusts already-pending evidence without an expiry check (code before the fix)
   Weak_LateAddUnchecked,   \* the store step of AddEvidence does not re-check the committed marker (code before the fix)
   Weak_ExpiryUsesStartupParams, \* isExpired / pruning keep the age limits NewPool saw; Update never refreshes them
+  Weak_CommittedMarkersDeferred, \* markEvidenceAsCommitted deletes the pending keys under the mutex but writes the
+                               \* committed markers later, in one batch, after the mutex is released
   Weak_BufferDedupIgnoresVoteType, \* ReportConflictingVotes drops a pair when one with the same height, round,
                                \* validator and blocks is buffered -- although the vote TYPE differs
   Weak_BufferUsesCurrentValSet \* late conflicting votes (height below the one just decided) become evidence with the
@@ -327,12 +334,56 @@ PruneFrom(c, p, s, i) ==
        ELSE PruneFrom(c, RemoveKeys(c, p, {KeyOf(c, id)}), s, i + 1)
 Prune(c, p) == PruneFrom(c, p, PendingSeq(c, p), 1)
 
+PruneGate(c, p, to) ==
+  IF p.size > 0 /\ to > p.pruneH /\ TimeAt(c, to) > p.pruneT THEN Prune(c, p) ELSE p
+
 Update(c, p, to, ids, crash) ==
   LET p0 == [p EXCEPT !.tip = Max2(@, to)]
       p1 == ProcessBuffer(c, p0, to)
       p2 == [p1 EXCEPT !.height = to, !.saved = IF crash THEN @ ELSE Max2(@, to)]
       p3 == MarkCommitted(c, p2, ids)
-  IN IF p3.size > 0 /\ to > p3.pruneH /\ TimeAt(c, to) > p3.pruneT THEN Prune(c, p3) ELSE p3
+  IN PruneGate(c, p3, to)
+
+\* ---- Update at the grain of markEvidenceAsCommitted, so that calls of other goroutines
+\*      (AddEvidence of a gossiping peer, PendingEvidence, ...) can fall in between.
+\* Per item of the block, IN ONE CRITICAL SECTION of pendingMtx: delete the pending key, write
+\* the committed marker.  addPendingEvidence takes the same mutex and re-checks the marker, so
+\* "not pending and not committed" is never visible to a store step for an item being committed.
+NoUpd == [on |-> FALSE, to |-> 0, ids |-> << >>, k |-> 0, locked |-> FALSE, rm |-> {}]
+KeysOfIds(c, ids) == {KeyOf(c, ids[i]) : i \in DOMAIN ids}
+RemovePendingOnly(c, p, K) ==
+  [p EXCEPT !.pending = {x \in p.pending : KeyOf(c, x) \notin K},
+            !.size = @ - Cardinality({x \in p.pending : KeyOf(c, x) \in K})]
+\* is there a k-th marker write to stop at?  (Weak: the only marker write is the batch, after the loop)
+Pausable(ids, k) == IF Weak_CommittedMarkersDeferred THEN k = 1 /\ Len(ids) >= 1 ELSE k >= 1 /\ k <= Len(ids)
+
+UpdateBegin(c, p, to, ids, k) ==
+  IF ~Pausable(ids, k) THEN Update(c, p, to, ids, FALSE)
+  ELSE
+    LET p0 == [p EXCEPT !.tip = Max2(@, to)]
+        p1 == ProcessBuffer(c, p0, to)
+        p2 == [p1 EXCEPT !.height = to]
+    IN IF Weak_CommittedMarkersDeferred
+       THEN LET K == KeysOfIds(c, ids) \cap PendingKeys(c, p2) IN
+            [RemovePendingOnly(c, p2, K) EXCEPT !.upd = [on |-> TRUE, to |-> to, ids |-> ids, k |-> k, locked |-> FALSE, rm |-> K]]
+       ELSE LET Kb == KeysOfIds(c, SubSeq(ids, 1, k - 1))
+                rb == Kb \cap PendingKeys(c, p2)
+                p3 == [RemovePendingOnly(c, p2, rb) EXCEPT !.committed = @ \cup Kb]
+                rk == {KeyOf(c, ids[k])} \cap PendingKeys(c, p3)
+            IN [RemovePendingOnly(c, p3, rk) EXCEPT !.upd = [on |-> TRUE, to |-> to, ids |-> ids, k |-> k, locked |-> TRUE, rm |-> rb \cup rk]]
+
+UpdateEnd(c, p) ==
+  LET u == p.upd
+      Kr == IF Weak_CommittedMarkersDeferred THEN {} ELSE KeysOfIds(c, SubSeq(u.ids, u.k + 1, Len(u.ids)))
+      rr == Kr \cap PendingKeys(c, p)
+      pm == [RemovePendingOnly(c, p, rr) EXCEPT !.committed = @ \cup KeysOfIds(c, u.ids)]
+      rm == u.rm \cup rr
+      pl == [pm EXCEPT !.list = SelectSeq(@, LAMBDA x : KeyOf(c, x) \notin rm), !.saved = Max2(@, u.to), !.upd = NoUpd]
+  IN PruneGate(c, pl, u.to)
+
+\* would a store step (addPendingEvidence) have to wait for the committing goroutine?
+StoreLocked(p) == p.upd.on /\ p.upd.locked
+AddBlocks(c, p, id) == StoreLocked(p) /\ AddLookups(c, p, id) /\ CodeVerify(c, p, id)
 
 \* ------------------------------------------------------------------ PendingEvidence(maxBytes)
 RECURSIVE TakeFrom(_, _, _, _, _)
@@ -345,7 +396,7 @@ PendingEvidence(c, p, mb) ==
 
 \* ------------------------------------------------------------------ NewPool (restart)
 Restart(c, p) ==
-  LET p1 == [p EXCEPT !.height = p.saved, !.startH = IF Weak_ExpiryUsesStartupParams THEN p.saved ELSE @, !.buffer = << >>, !.reported = {}, !.inflight = {}, !.list = << >>]
+  LET p1 == [p EXCEPT !.height = p.saved, !.startH = IF Weak_ExpiryUsesStartupParams THEN p.saved ELSE @, !.buffer = << >>, !.reported = {}, !.inflight = {}, !.list = << >>, !.upd = NoUpd]
       p2 == Prune(c, p1)
   IN IF Weak_NoReloadOnRestart THEN [p2 EXCEPT !.size = 0]
      ELSE [p2 EXCEPT !.size = Cardinality(p2.pending), !.list = PendingSeq(c, p2)]
@@ -353,13 +404,21 @@ Restart(c, p) ==
 InitPool(c) ==
   [pending |-> {}, committed |-> {}, list |-> << >>, size |-> 0, buffer |-> << >>,
    height |-> c.H0, pruneH |-> c.H0, pruneT |-> TimeAt(c, c.H0), tip |-> c.H0, saved |-> c.H0,
-   inflight |-> {}, startH |-> c.H0, reported |-> {}]
+   inflight |-> {}, startH |-> c.H0, reported |-> {}, upd |-> NoUpd]
 
 \* ------------------------------------------------------------------ one step, by action descriptor
 \* a.name in Add | Check | Report | Update | Pending | Restart | AddBegin | AddEnd
 Ticket(p, tk)   == CHOOSE x \in p.inflight : x.tk = tk
 TicketId(p, tk) == Ticket(p, tk).id
 HasTicket(p, tk) == \E x \in p.inflight : x.tk = tk
+
+RECURSIVE LateFrom(_, _, _, _)
+LateFrom(c, p, late, i) ==
+  IF i > Len(late) THEN p
+  ELSE IF ~HasTicket(p, late[i].tk) THEN LateFrom(c, p, late, i + 1)
+  ELSE LET t == Ticket(p, late[i].tk)
+           r == AddFinish(c, p, t.id, t.h)
+       IN LateFrom(c, [r.p EXCEPT !.inflight = {x \in @ : x.tk # t.tk}], late, i + 1)
 
 Step(c, p, a) ==
   CASE a.name = "Add"     -> AddEvidence(c, p, a.id)
@@ -369,6 +428,15 @@ Step(c, p, a) ==
          IF FlushPanics(c, p, a.to)     \* the block is in the block store, the pool call never returns
          THEN [p |-> [p EXCEPT !.tip = Max2(@, a.to)], res |-> "panic", why |-> "none"]
          ELSE [p |-> Update(c, p, a.to, a.ids, a.crash), res |-> "ok", why |-> "none"]
+    [] a.name = "UpdateBegin" ->
+         IF FlushPanics(c, p, a.to)
+         THEN [p |-> [p EXCEPT !.tip = Max2(@, a.to)], res |-> "panic", why |-> "none"]
+         ELSE [p |-> UpdateBegin(c, p, a.to, a.ids, a.k), res |-> "ok", why |-> "none"]
+    [] a.name = "UpdateEnd" ->
+         \* a.late: tickets of AddEvidence calls that waited for pendingMtx and went on when the
+         \* committing goroutine released it; their store steps commute with the rest of Update
+         IF p.upd.on THEN [p |-> LateFrom(c, UpdateEnd(c, p), a.late, 1), res |-> "ok", why |-> "none"]
+         ELSE [p |-> p, res |-> "ok", why |-> "none"]
     [] a.name = "Pending" -> [p |-> p, res |-> "ok", why |-> "none"]
     [] a.name = "Restart" -> [p |-> Restart(c, p), res |-> "ok", why |-> "none"]
     [] a.name = "AddBegin" ->
@@ -401,6 +469,10 @@ StateStepViol(c, p, q) ==
      (IF Gap(q) # 0 /\ Gap(q) # Gap(p) THEN {"SizeExact"} ELSE {})
 \cup ((StateViol(c, q) \ StateViol(c, p)) \ {"SizeExact"})
 
+IsUpd(a)    == a.name \in {"Update", "UpdateBegin", "UpdateEnd"}
+IsUpdEnd(a) == a.name \in {"Update", "UpdateEnd"}
+LateTks(a)  == IF a.name = "UpdateEnd" THEN {a.late[i].tk : i \in DOMAIN a.late} ELSE {}
+
 \* ids whose stored value is new in q (new key, or same key with another value)
 NewIn(p, q) == q.pending \ p.pending
 GoneKeys(c, p, q) == PendingKeys(c, p) \ PendingKeys(c, q)
@@ -421,9 +493,11 @@ StepViol(c, p, q, a) ==
 \cup (IF a.name \in {"Report", "Pending", "Restart", "AddBegin"} /\ new # {} THEN {"AdmitOnlyAdmissible"} ELSE {})
   \* ... and that evidence is the one the reported votes prove against the validator set and
   \* block time of THEIR height (also for votes reported late, after the set has changed)
-\cup (IF a.name = "Update" /\ \E x \in new :
-            \/ ~\E r \in p.reported \cup Range(p.buffer) : KnownPair(c, r) /\ c.pairs[r].dv = x /\ c.pairs[r].h <= q.height
-            \/ ~Proves(c, q, x)
+  \* (or, when the mutex is released, the store step of an AddEvidence that waited for it)
+\cup (IF IsUpd(a) /\ \E x \in new :
+            /\ ~\E t \in p.inflight : t.tk \in LateTks(a) /\ t.id = x /\ AdmissibleAt(c, q, x, t.h)
+            /\ \/ ~\E r \in p.reported \cup Range(p.buffer) : KnownPair(c, r) /\ c.pairs[r].dv = x /\ c.pairs[r].h <= q.height
+               \/ ~Proves(c, q, x)
         THEN {"AdmitOnlyAdmissible"} ELSE {})
   \* a call that panics neither admits / refuses evidence nor turns reported votes into evidence
 \cup (IF a.res = "panic" THEN {"NoPanic"} ELSE {})
@@ -444,23 +518,24 @@ StepViol(c, p, q, a) ==
   \* nothing leaves the pool except by commit or expiry (both limits, judged at the new state)
 \cup (IF a.name \in {"Add", "Check", "Report", "Pending", "AddBegin", "AddEnd"} /\ gone # {}
         THEN {"PendingKept"} ELSE {})
-\cup (IF a.name = "Update" /\ \E k \in gone : k \notin {KeyOf(c, a.ids[i]) : i \in DOMAIN a.ids} /\ ~expiredAtQ(k)
+\cup (IF IsUpd(a) /\ \E k \in gone : k \notin {KeyOf(c, a.ids[i]) : i \in DOMAIN a.ids} /\ ~expiredAtQ(k)
         THEN {"ExpiryBoth"} ELSE {})
 \cup (IF a.name = "Restart" /\ \E k \in gone : ~expiredAtQ(k) THEN {"SurvivesRestart"} ELSE {})
   \* conflicting votes of decided heights become pending evidence (or are already used up / out of date)
   \* -- EVERY DISTINCT pair reported: a prevote pair and a precommit pair of one validator in one
   \*    round are two pieces of evidence; repeats of one pair are one
-\cup (IF a.name = "Update" /\ \E r \in p.reported \cup Range(p.buffer) :
+\cup (IF IsUpd(a) /\ \E r \in p.reported \cup Range(p.buffer) :
             KnownPair(c, r) /\
             LET pr == c.pairs[r] k == KeyOf(c, pr.dv) IN
               /\ pr.h <= q.height
               /\ ~IsPendingKey(c, q, k) /\ k \notin q.committed
+              /\ k \notin KeysOfIds(c, a.ids)      \* (being committed by this very block)
               /\ ~ExpiredBoth(c, q.height, pr.h, TimeAt(c, pr.h))
         THEN {"BufferFlushed"} ELSE {})
   \* committed markers only grow, and only by the block's evidence
 \cup (IF ~(p.committed \subseteq q.committed) THEN {"CommittedKept"} ELSE {})
-\cup (IF a.name # "Update" /\ q.committed # p.committed THEN {"CommittedKept"} ELSE {})
-\cup (IF a.name = "Update" /\ ~({KeyOf(c, a.ids[i]) : i \in DOMAIN a.ids} \subseteq q.committed) THEN {"CommittedKept"} ELSE {})
+\cup (IF ~IsUpd(a) /\ q.committed # p.committed THEN {"CommittedKept"} ELSE {})
+\cup (IF IsUpdEnd(a) /\ a.res # "panic" /\ ~({KeyOf(c, a.ids[i]) : i \in DOMAIN a.ids} \subseteq q.committed) THEN {"CommittedKept"} ELSE {})
 
 \* class string of a violation: narrows known-finding signatures to the input class / call site
 ClassOf(c, p, q, a, inv) ==
@@ -477,7 +552,9 @@ ClassOf(c, p, q, a, inv) ==
                                       /\ ExpiredBoth(c, p.height, HOf(c, a.ids[i]), TOf(c, a.ids[i]))
           THEN "expired-pending-duplicate-vote-accepted" ELSE "other")
     [] inv = "OnceOnly" ->
-         (IF a.name = "AddEnd" THEN "add-stored-after-commit" ELSE a.name)
+         (IF a.name = "AddEnd" THEN "add-stored-after-commit"
+          ELSE IF a.name = "UpdateEnd" THEN "committed-marker-written-after-item-was-readded"
+          ELSE a.name)
     [] inv = "AdmitOnlyAdmissible" ->
          (IF a.name = "AddEnd" /\ \E x \in NewIn(p, q) : KeyOf(c, x) \in p.committed THEN "add-stored-after-commit"
           ELSE IF a.name = "Update" THEN "Update:evidence-from-buffered-votes-does-not-prove"
